@@ -1288,6 +1288,14 @@ struct ical_parser_s {
 
 #define ICAL_EOP	((struct ical_vevent_s*)0x1U)
 
+static inline nummapstr_t
+dup_nummapstr(nummapstr_t x)
+{
+/* calendar-wide defaults go to every event of the calendar */
+	const char *s = nummapstr_str(x);
+	return s != NULL ? nummapstr_bang_str(strdup(s)) : x;
+}
+
 static size_t
 esccpy(char *restrict tgt, size_t tz, const char *src, size_t sz, char *pend)
 {
@@ -1476,8 +1484,14 @@ _ical_proc(struct ical_parser_s p[static 1U])
 					/* FINALLY a vevent thing */
 					/* rinse our bucket */
 					memset(&p->ve, 0, sizeof(p->ve));
-					/* copy global task properties */
+					/* copy global task properties, strings
+					 * belong to the task they end up in */
 					p->ve.t = p->globve.t;
+					p->ve.t.owner = dup_nummapstr(p->ve.t.owner);
+					p->ve.t.run_as.u =
+						dup_nummapstr(p->ve.t.run_as.u);
+					p->ve.t.run_as.g =
+						dup_nummapstr(p->ve.t.run_as.g);
 					/* copy global scale */
 					p->ve.cal = p->globve.cal;
 					/* and set state to vevent */
@@ -1543,7 +1557,8 @@ _ical_proc(struct ical_parser_s p[static 1U])
 			 * to other vevents as well */
 			if (!p->ve.t.owner) {
 				/* bang owner */
-				p->ve.t.owner = p->globve.t.owner;
+				p->ve.t.owner =
+					dup_nummapstr(p->globve.t.owner);
 			}
 			if (!p->ve.t.umsk) {
 				/* bang umask */
@@ -1556,10 +1571,12 @@ _ical_proc(struct ical_parser_s p[static 1U])
 			if (!p->ve.t.run_as.u) {
 				/* bang run_as user, but leave the event's
 				 * working directory and shell alone */
-				p->ve.t.run_as.u = p->globve.t.run_as.u;
+				p->ve.t.run_as.u =
+					dup_nummapstr(p->globve.t.run_as.u);
 			}
 			if (!p->ve.t.run_as.g) {
-				p->ve.t.run_as.g = p->globve.t.run_as.g;
+				p->ve.t.run_as.g =
+					dup_nummapstr(p->globve.t.run_as.g);
 			}
 			/* copy global scale */
 			p->ve.cal = p->globve.cal;
